@@ -7,7 +7,7 @@ Import ListNotations.
    (pseudo-columns are numeric columns: argsort + searchsorted, isin masks, exactly the code SeriesColumns inherit) *)
 Definition sstep_model_ok (p p' : list ltable) (s : sstepobs) : bool :=
   match ss_op s with
-  | SPlain o => step_model_ok p p' {| so_op := o; so_out := ss_out s; so_dumps := ss_dumps s; so_pyok := ss_pyok s |}
+  | SPlain o => step_model_ok_with table_eqb_u p p' {| so_op := o; so_out := ss_out s; so_dumps := ss_dumps s; so_pyok := ss_pyok s |}
   | _ => true
   end.
 Fixpoint model_ssteps (w : world) (p : list ltable) (steps : list sstepobs) : bool :=
